@@ -87,9 +87,9 @@ class SuperOperator(BasisManaged):
         # Set the currently used basis
         cb = self.manager.get_current_basis()
         self.set_current_basis(cb)
-        # unless it is the basis outside any context
-        if cb != 0:
-            self.manager.register_with_basis(cb,self)
+        
+        # name used in the messages about basis changes
+        self.name = ""
             
         self._data_initialized = False
         
@@ -110,6 +110,13 @@ class SuperOperator(BasisManaged):
                 raise Exception("`data` has to be `square` "+
                                 "four-dimensional matrix")
             self.dim = data.shape[0]
+
+        # the object is registered with the current basis only when it is
+        # complete: a refused construction leaves nothing behind to be
+        # transformed when the context is left
+        # (unless it is the basis outside any context)
+        if cb != 0:
+            self.manager.register_with_basis(cb,self)
       
 
     def apply(self, oper, copy=True):
